@@ -18,7 +18,7 @@ LEVEL_NOTE = ("Trusted: virtual clock (the reference run is reproducible, so 'af
               "encoding used by the recovery-budget model (shared with C08).")
 DESIGN_REF = "§5 C12"
 RULE = "case = (deterministic program, pause tick k); all k of each program are enumerated; distinct = hash of (program, k, state summary); non-trivial = pause state has queued or running work"
-REQUIRED_REACH = ["pause_point", "resumed_run", "result_compare", "state_compare", "retry_continuity_eval", "resumed_in_flight_retry", "fixed_point_eval", "fixed_point_with_waiter", "pause_with_collected", "queue_entry_roundtrip_eval", "queued_with_recovery_budget", "queued_with_retry_info"]
+REQUIRED_REACH = ["pause_point", "resumed_run", "result_compare", "state_compare", "retry_continuity_eval", "resumed_in_flight_retry", "fixed_point_eval", "fixed_point_with_waiter", "pause_with_collected", "queue_entry_roundtrip_eval", "queued_with_recovery_budget", "queued_with_retry_info", "resumed_run_snapshotted_again"]
 ASSUMPTIONS = ["workflows are deterministic and idempotent under re-execution by construction (no ctx.send_event, idempotent state writes)"]
 EXHAUSTIVE = False
 
@@ -98,7 +98,31 @@ def check_pause(case, k, snap, ref, acc):
         return  # run had not started / already ended at this pause point: nothing to resume
     # ---- resume
     spec2 = {**case["spec"], "uid_base": 1000}
-    tr2 = engine_run.run_case(spec2, ctx_factory=lambda w: Context.from_dict(w, json.loads(json.dumps(snap))), start=False)
+    chained = any(w["collected_events"] for w in snap["workers"].values())
+    if chained:
+        # a partly filled collect buffer travels in this snapshot: the resumed run is itself serialized at every yield point
+        # (pause -> resume -> snapshot again), and each of those chained snapshots must describe the resumed run's buffers
+        acc.hit("resumed_run_snapshotted_again")
+        tr2, snaps2 = engine_run.run_with_snapshots(spec2, ctx_factory=lambda w: Context.from_dict(w, json.loads(json.dumps(snap))), start=False)
+    else:
+        snaps2 = []
+        tr2 = engine_run.run_case(spec2, ctx_factory=lambda w: Context.from_dict(w, json.loads(json.dumps(snap))), start=False)
+    for ent2 in snaps2:
+        if ent2.get("err"):
+            acc.violation({"mech": "to_dict_raises", "chained": True}, f"resumed from pause {k}: ctx.to_dict() at yield {ent2['k']} of the resumed run raised {ent2['err']}", wit)
+            break
+        for sname, w2 in ((ent2.get("snap") or {}).get("workers") or {}).items():
+            for buf, evs in (w2.get("collected_events") or {}).items():
+                if len(evs) != len(set(evs)):
+                    acc.violation({"mech": "chained_snapshot_buffer_has_duplicate_event"},
+                                  f"resumed from pause {k}: snapshot at yield {ent2['k']} of the resumed run lists an event twice in collect buffer {sname}/{buf}: "
+                                  f"{[json.loads(e).get('value', {}).get('_data', {}).get('uid') if isinstance(e, str) else e for e in evs]}", wit)
+                    break
+    for r2 in tr2.rec.of("collect"):
+        got = r2.get("got")
+        if got and len({x[1] for x in got}) != len(got):
+            acc.violation({"mech": "collect_returned_one_event_twice", "resumed": True}, f"resumed from pause {k}: collect_events returned {got}", wit)
+            break
     acc.case()
     acc.hit("resumed_run")
     if tr2.errors:
